@@ -189,6 +189,9 @@ func checkC01(rc *RunCtx) *Report {
 			}
 			cs := cs
 			sc.Mode = QAny
+			// the order of a request's targets inside the transaction controller (map iteration over Change.Values,
+			// Status.Proposals built in that order) is explored too
+			sc.MapOrderDeviations = true
 			if sc.MaxStates == 0 {
 				sc.MaxStates = 600000
 			}
